@@ -10,7 +10,7 @@ COMMON_ASSUME = [
 CHECKS = {
     "C01": {
         "test": "TestC01",
-        "quick": {"shards": 8, "checks": 10000},
+        "quick": {"shards": 8, "checks": 7000},
         "thorough": {"shards": 16, "checks": 3000},
         "rule": "rapid-generated block histories from the empty accumulator (deletion modes none/all/whole trees/sibling pairs/lone root/climbed/"
                 "all-but-one/one/p=1/8,1/2,7/8; addition modes 0,1,2,3,to 2^k-1,to 2^k,past 2^k,random) applied in lock-step to Stump, Pollard and 2-3 "
@@ -152,7 +152,7 @@ NOT_APPLICABLE[:] = [e for e in NOT_APPLICABLE if e["property_id"] not in CHECKS
 
 CHECKS["C06"] = {
     "test": "TestC06",
-    "quick": {"shards": 8, "checks": 4000},
+    "quick": {"shards": 8, "checks": 3000},
     "thorough": {"shards": 16, "checks": 4000},
     "rule": "rapid-generated sequences of block / undo (depth 1 or a random depth up to the whole history) / redo-the-undone-block steps, new blocks after an "
             "undo use leaves with different hashes (branch salt); run on Pollard, a full MapPollard and a partial MapPollard (generated TotalRows; partial "
